@@ -207,6 +207,7 @@ def main():
     per_file = int(opt("--per-file", "12"))
     seed = opt("--seed", "1")
     only = opt("--only", "")
+    redo = set(x for x in opt("--redo", "").split(",") if x)
     out = opt("--out", "/verif/mutation/results.jsonl")
     base = "/tmp/mut/base"
     head = subprocess.run("git -C /repo rev-parse HEAD", shell=True, capture_output=True, text=True).stdout.strip()
@@ -224,7 +225,8 @@ def main():
                 done.add(json.loads(l)["id"])
             except Exception:
                 pass
-    muts = [m for m in gen_mutants(base, per_file, seed, only) if m["id"] not in done]
+    done -= redo
+    muts = [m for m in gen_mutants(base, per_file, seed, only) if m["id"] not in done and (not redo or m["id"] in redo)]
     print(f"{len(muts)} mutants to run ({len(done)} already recorded), repo HEAD {head[:10]}", flush=True)
     q = queue.Queue()
     for m in muts:
